@@ -567,7 +567,32 @@ def alignment_bound(F, R):
     R.floor('shared memory builders constructing their allocator', n, 1)
 
 
+
+SHM_INNER_ALLOWED = {'free_space', 'new', 'reset', 'start_address', 'total_space', 'used_space', 'allocate', 'bucket_size', 'deallocate_bucket', 'init',
+                     'max_alignment', 'memory_size', 'new_uninit', 'number_of_buckets', 'deallocate', 'grow', 'shrink'}
+
+
+def shm_allocators_never_touch_memory(F, R):
+    """The shm allocators wrap a process-local allocator whose stored start address is the CREATOR's mapping address.  They use it as a
+    number only (address arithmetic that ends in a segment-relative offset).  Of the wrapped allocator they call only operations that do
+    not dereference what they return - never `allocate_zeroed` & co, which write through the creator's absolute address in whatever
+    process happens to call them."""
+    n = 0
+    for f in F.fn_list:
+        if f.crate != 'iceoryx2_cal' or 'shm_allocator' not in f.id:
+            continue
+        for c in f.sites:
+            if c.is_call and c.callee and re.search(r'iceoryx2_bb_(memory|elementary)::.*(pool_allocator|bump_allocator)|iceoryx2_bb_elementary_traits::allocator::', c.callee + ' ' + (c.callee_orig or '')):
+                n += 1
+                m_ = (c.callee_orig or c.callee).rsplit('::', 1)[-1]
+                if m_ in ('eq', 'ne', 'fmt', 'clone'):
+                    n -= 1
+                    continue    # derived impls of plain enums of the allocator module (ContentPlacement ..)
+                R.ob('WHO-MAY-CALL', 'WHO-MAY-CALL::%s::inner-allocator::%s' % (fnkey(f), m_), m_ in SHM_INNER_ALLOWED, 'calls %s of the wrapped process-local allocator; allowed are the operations that only compute (%s)' % (m_, 'yes' if m_ in SHM_INNER_ALLOWED else 'NOT in the allowed set: it touches memory through the creator\'s address'), c.where, f)
+    R.floor('calls from shm allocators into the wrapped allocator', n, 15)
+
 def check(F, R, tier):
+    shm_allocators_never_touch_memory(F, R)
     excepted = type_walk(F, R)
     exception_obligations(F, R, excepted)
     roots = set(i['self'][1] for i in F.impls if i['trait'] in (ZCS, RELOC) and i['self'][0] == 'adt')
